@@ -3210,7 +3210,11 @@ impl<'a> Model<'a> {
                         }
                     }
                     _ => {
-                        let _ = ws.cell_clear_contents(row, column);
+                        // There is nothing to clear where there is no cell; creating an empty
+                        // cell here would freeze the style it inherits from its row or column
+                        if ws.cell(row, column).is_some() {
+                            let _ = ws.cell_clear_contents(row, column);
+                        }
                     }
                 }
             }
